@@ -169,7 +169,13 @@ func (s *vStore) AddAllNoError(ctx context.Context, changes []StorageChange, hea
 	}
 	return s.AddAll(ctx, fresh, heads, commonSnapshot)
 }
-func (s *vStore) Delete(ctx context.Context) error { s.changes = map[string]StorageChange{}; return nil }
+func (s *vStore) Delete(ctx context.Context) error {
+	if err := s.tick(); err != nil {
+		return err
+	}
+	s.changes = map[string]StorageChange{}
+	return nil
+}
 func (s *vStore) Close() error                     { return nil }
 
 // ---- change builder without protobuf or crypto: a raw change is looked up by id.
